@@ -1,39 +1,46 @@
 (* C20 — equations and generating functions agree with the true enumeration.
 
-   Only statements; every proof applies lemmas of Count/Series*.v and
-   Count/Equations*.v.
+   Only statements; every proof applies lemmas of Count/Series*.v, Count/Equations*.v and
+   Count/GenfSelect*.v.
 
-   Model (Count/Equations.v): `rule_equation pars r` transcribes get_equation of
-   every rule form of strategies/rule.py with the constructors' get_equation of
-   strategies/constructor/{disjoint,cartesian}.py; `pars l` are the names of the
-   statistics of class l (variable ids; 0 is x).
-   Semantics: `holds S O V N lhs rhs` — both sides, with every F_l read as the
-   series S l and Div read as the cross-multiplied identity, have the same
-   coefficient at every monomial of x-degree <= N (monomials compared on the
-   variables V).  `SN T N` is the family of TRUE series of the classes, truncated
-   at order N, built from the true term tables  T l n  (Counter parameters->count).
+   Model (Count/Equations.v): `rule_equation pars r` transcribes get_equation of every rule form of
+   strategies/rule.py with the constructors' get_equation of strategies/constructor/{disjoint,cartesian}.py
+   AS REPAIRED by fix FIXHASH_EQ: a child parameter that no parent parameter is mapped to gets its variable
+   set to 1 (it is summed out, as get_terms does), several parent parameters mapped to one child parameter
+   are multiplied (in products too); `pars l` are the names of the statistics of class l (variable ids; 0
+   is x).  `rule_equation_old` is the code BEFORE that fix (HISTORY, last section).
+   Count/GenfSelect.v: the selection step of CombinatorialSpecification.get_genf as repaired by fix
+   FIXHASH_GENF (`genf_select`: every class's solved function must expand to that class's counts on the
+   check+1 compared terms) and before (`genf_select_old`: the root only); what sympy.solve returned is an
+   input of that model.
+   Semantics: `holds S O V N lhs rhs` — both sides, with every F_l read as the series S l and Div read as
+   the cross-multiplied identity, have the same coefficient at every monomial of x-degree <= N (monomials
+   compared on the variables V).  `SN T N` is the family of TRUE series of the classes, truncated at order
+   N, built from the true term tables  T l n  (Counter parameters->count).
 
    GENUINENESS of a rule is a HYPOTHESIS of every theorem of group 1 (nobody concludes it):
-   * union_genuine pars T p kids (Count/EquationsRules.v) is stated on the term tables,
-     positionally: the parent's Counter at size n is the sum of the children's Counters
-     re-keyed through the dictionaries (an unmapped parent parameter reads 0, an unmapped child
-     parameter is summed out);
-   * product_genuine pars T V p kids N is stated on SERIES coefficients for the given V and N:
-     the parent's true series is the Cauchy product of the children's re-keyed series up to
-     order N — i.e. the theorem's own content for products is the substitution step
-     (simultaneous substitution of variables = positional re-keying), not the convolution.
+   * union_genuine pars T p kids (Count/EquationsRules.v) is stated on the term tables, positionally: the
+     parent's Counter at size n is the sum of the children's Counters re-keyed through the dictionaries
+     (an unmapped parent parameter reads 0, an unmapped child parameter is summed out);
+   * product_genuine pars T V p kids N is stated on SERIES coefficients for the given V and N: the
+     parent's true series is the Cauchy product of the children's re-keyed series up to order N — i.e.
+     the theorem's own content for products is the substitution step (simultaneous substitution of
+     variables = positional re-keying), not the convolution.
    These are this file's own predicates.  C09 has predicates of the same NAMES
-   (Count/ConstructorsUnionProduct.v) over other types; no lemma relates the two, and C09 too
-   assumes genuineness.  Per instance the harness evaluates exactly these two predicates on
-   brute-force tables for every generated rule (harness/props/c20.py, _genuine).
+   (Count/ConstructorsUnionProduct.v) over other types; no lemma relates the two, and C09 too assumes
+   genuineness.  Per instance the harness evaluates exactly these two predicates on brute-force tables
+   for every generated rule (harness/props/c20.py, _genuine).
+   The only other condition on a child is kid_wfd: its dictionary is a dictionary (distinct keys) from
+   parameters of the parent to parameters of the child, names of one class are distinct and none is x.
+   NO cover and NO injectivity condition is left: this is the full first clause of the property.
 
-   Every theorem quantifies over ALL truncation orders N, all variable sets V, all
-   term tables and all parameter dictionaries meeting the stated conditions.      *)
+   Every theorem quantifies over ALL truncation orders N, all variable sets V, all term tables and all
+   parameter dictionaries meeting the stated conditions.      *)
 From Coq Require Import ZArith List Bool Lia.
 From CSS Require Import Forest.Spec Spec.Eval Gen.Prelude Gen.ProductShifts.
 From CSS Require Import Count.Series Count.SeriesConv Count.Equations Count.EquationsProofs
   Count.EquationsRules Count.EquationsEquiv Count.SeriesUnique Count.SeriesUniqueRefuted
-  Count.SeriesClosedForm.
+  Count.SeriesClosedForm Count.GenfSelect Count.GenfSelectProofs.
 Import ListNotations.
 Open Scope Z_scope.
 
@@ -42,21 +49,28 @@ Definition satisfied pars T O V N (r : rule) : Prop :=
   | Ok lhs rhs => holds (SN T N) O V N lhs rhs
   | _ => False
   end.
+(* the same about the code before fix FIXHASH_EQ (HISTORY) *)
+Definition satisfied_before_fix pars T O V N (r : rule) : Prop :=
+  match rule_equation_old pars r with
+  | Ok lhs rhs => holds (SN T N) O V N lhs rhs
+  | _ => False
+  end.
 
 (* ------------------------------------------------------------ 1. C20_equation_satisfied, form by form *)
 
-(* Rule with a DisjointUnion constructor.  kids = children with their
-   extra_parameters dictionaries (parent name -> child name); the child variable is
-   replaced by the PRODUCT of all parent variables mapped to it. *)
+(* Rule with a DisjointUnion constructor.  kids = children with their extra_parameters dictionaries
+   (parent name -> child name); a child variable is replaced by the PRODUCT of all parent variables
+   mapped to it, by 1 when there is none (the statistic is summed out).  EVERY genuine rule with
+   well-formed dictionaries. *)
 Theorem C20_union_equation_satisfied : forall pars T O V p kids N,
-  class_wf pars T p -> Forall (kid_wf pars T (pars p)) kids -> union_genuine pars T p kids ->
+  class_wf pars T p -> Forall (kid_wfd pars T (pars p)) kids -> union_genuine pars T p kids ->
   satisfied pars T O V N (RUnion (mkorule p (map fst kids) (map snd kids))).
 Proof. intros. apply union_equation_holds; auto. Qed.
 
-(* Rule with a CartesianProduct constructor, provided no two parent parameters are
-   mapped to the same child parameter (pkid_wf); see C20_product_collision_refuted. *)
+(* Rule with a CartesianProduct constructor: likewise every genuine rule with well-formed dictionaries
+   (two parent parameters may be mapped to one child parameter, child parameters may be unmapped). *)
 Theorem C20_product_equation_satisfied : forall pars T O V p kids N,
-  class_wf pars T p -> Forall (pkid_wf pars T (pars p)) kids -> product_genuine pars T V p kids N ->
+  class_wf pars T p -> Forall (kid_wfd pars T (pars p)) kids -> product_genuine pars T V p kids N ->
   satisfied pars T O V N (RProduct (mkorule p (map fst kids) (map snd kids))).
 Proof. intros. apply product_equation_holds; auto. Qed.
 
@@ -77,7 +91,7 @@ Theorem C20_complement_equation_satisfied : forall pars T O V p cs idx N,
 Proof.
   intros pars T O V p cs idx N H1 H2 H3 H4 H5.
   pose proof (complement_equation_holds pars T O V p cs idx N H1 H2 H3 H4 H5) as H.
-  unfold satisfied. cbn [rule_equation o_parent o_children o_eps].
+  unfold satisfied, rule_equation. cbn [rule_equation_with o_parent o_children o_eps].
   destruct (complement_equation _ _ _); auto; contradiction.
 Qed.
 
@@ -90,25 +104,25 @@ Theorem C20_quotient_equation_satisfied : forall pars T O V p cs idx N,
 Proof.
   intros pars T O V p cs idx N H1 H2 H3 H4 H5.
   pose proof (quotient_equation_holds pars T O V p cs idx N H1 H2 H3 H4 H5) as H.
-  unfold satisfied. cbn [rule_equation o_parent o_children o_eps].
+  unfold satisfied, rule_equation. cbn [rule_equation_with o_parent o_children o_eps].
   destruct (quotient_equation _ _ _); auto; contradiction.
 Qed.
 
 (* EquivalenceRule of a union rule: a one-child union with extra_parameters[child_idx] *)
 Theorem C20_equivalence_equation_satisfied : forall pars T O V o cidx N,
   let p := o_parent o in let c := nth cidx (o_children o) (-1) in let ep := nth cidx (o_eps o) [] in
-  class_wf pars T p -> kid_wf pars T (pars p) (c, ep) -> union_genuine pars T p [(c, ep)] ->
+  class_wf pars T p -> kid_wfd pars T (pars p) (c, ep) -> union_genuine pars T p [(c, ep)] ->
   satisfied pars T O V N (REquivUnion o cidx).
 Proof. intros. apply equiv_equation_holds; auto. Qed.
 
-(* EquivalencePathRule: a one-child union with the composed dictionary `ep`.  The genuineness
-   of the COMPOSED one-child union is a hypothesis (C09_path is about another predicate and is
-   not used).  kid_wf asks every parameter of the end class to be the image of a start
-   parameter: the case fixed_values = {} of EquivalencePathRule.constructor; for
-   fixed_values <> {} see C20_path_equation_fixed_values_satisfied. *)
+(* EquivalencePathRule: a one-child union with the composed dictionary `ep`.  The genuineness of the
+   COMPOSED one-child union is a hypothesis (C09_path is about another predicate and is not used).  The end
+   class may track statistics that no parameter of the start class is mapped to
+   (EquivalencePathRule.constructor then passes fixed_values = {k: 0}, which get_equation does not read):
+   their variables are set to 1. *)
 Theorem C20_path_equation_satisfied : forall pars T O V p steps c ep N,
   path_eps (pars p) steps = Some ep ->
-  class_wf pars T p -> kid_wf pars T (pars p) (c, ep) -> union_genuine pars T p [(c, ep)] ->
+  class_wf pars T p -> kid_wfd pars T (pars p) (c, ep) -> union_genuine pars T p [(c, ep)] ->
   satisfied pars T O V N (RPath p steps c).
 Proof. intros. eapply path_equation_holds; eauto. Qed.
 
@@ -126,31 +140,6 @@ Theorem C20_verified_equation_satisfied : forall pars T O V c N,
   (forall m : mono, 0 <= m 0 <= N -> pcoef V (cser (pars c) (tbl N (T c))) m = pcoef V (O c) m) ->
   satisfied pars T O V N (RVerified c).
 Proof. intros. apply verified_equation_holds; auto. Qed.
-
-(* ---- unmapped child parameters that are identically 0 (kid_wf0: every child parameter is the
-   image of a parent parameter OR is 0 on every object of the child).  The emitted equation
-   keeps the child's own variable free; the child's series does not depend on it. *)
-Theorem C20_union_equation_zero_statistic_satisfied : forall pars T O V p kids N,
-  class_wf pars T p -> Forall (kid_wf0 pars T (pars p)) kids -> union_genuine pars T p kids ->
-  satisfied pars T O V N (RUnion (mkorule p (map fst kids) (map snd kids))).
-Proof. intros. apply union_equation_holds0; auto. Qed.
-
-Theorem C20_product_equation_zero_statistic_satisfied : forall pars T O V p kids N,
-  class_wf pars T p -> Forall (pkid_wf0 pars T (pars p)) kids -> product_genuine pars T V p kids N ->
-  satisfied pars T O V N (RProduct (mkorule p (map fst kids) (map snd kids))).
-Proof. intros. apply product_equation_holds0; auto. Qed.
-
-(* EquivalencePathRule whose end class c tracks statistics that no parameter of the start class
-   is mapped to: EquivalencePathRule.constructor passes fixed_values = {k: 0} for them, and
-   get_equation leaves F_c's own variable k in the equation.  Satisfied when those statistics
-   are 0 on every object of c (what fixed_values asserts; e.g. the path runs backwards through a
-   union rule whose parent tracks a statistic none of its children accounts for).  When such a
-   statistic is a genuine one the equation is NOT satisfied: C20_union_unmapped_refuted. *)
-Theorem C20_path_equation_fixed_values_satisfied : forall pars T O V p steps c ep N,
-  path_eps (pars p) steps = Some ep ->
-  class_wf pars T p -> kid_wf0 pars T (pars p) (c, ep) -> union_genuine pars T p [(c, ep)] ->
-  satisfied pars T O V N (RPath p steps c).
-Proof. intros. eapply path_equation_holds0; eauto. Qed.
 
 (* EquivalenceRule(ReverseRule(union rule p -> (.., c, ..))): Complement(c, (p,), 0, (ep,)).
    With the empty dictionary it emits F_c(x, c's names) = F_p(x, p's names); satisfied when the
@@ -251,37 +240,177 @@ Theorem C20_closed_form_criterion : forall (uspec : nat -> option urule) (keys :
   forall c, pumps keys c -> forall n, 0 <= n -> G c n = W c n.
 Proof. intros. eapply closed_form_criterion; eauto. Qed.
 
-(* ------------------------------------------------------------ 3. defects of the unchanged code *)
-(* DisjointUnion.get_equation leaves a child parameter that no parent parameter is mapped to as a
-   free variable of the child's function, while get_terms sums it out: a genuine union rule (and
-   the EquivalencePathRule over it, whose constructor has fixed_values = {e: 0}) whose emitted
-   equation is not satisfied.  (kid_wf's last conjunct fails for this child, everything else
-   holds.) *)
+(* ------------------------------------------------------------ 2c. the selection of get_genf (repaired) *)
+(* genf_select check root classes W bs: bs = the solutions sympy.solve returned, each given by the Taylor
+   coefficients of its functions (None: no function for the class / no Taylor expansion), W = the
+   specification's own counts.  If get_genf returns (the root function of) branch b, then b is one of the
+   solver's, it is the first that passes, and EVERY class's series -- not only the root's -- agrees with
+   the counts on the check + 1 compared terms. *)
+Theorem C20_genf_selection : forall check root classes (W : nat -> Z -> Z) bs b,
+  genf_select check root classes W bs = Some b ->
+  In b bs /\
+  (forall c, c = root \/ In c classes ->
+     exists g, b c = Some g /\ forall n, 0 <= n <= check -> g n = W c n) /\
+  (exists pre post, bs = pre ++ b :: post /\
+     forall b', In b' pre -> class_ok check W b' root && all_classes_agree check classes W b' = false).
+Proof. intros. apply genf_selection; auto. Qed.
+
+(* What the selection does NOT imply: agreement beyond the compared terms.  A branch that passes and whose
+   root coefficient at x^(check+1) is not the count.  "Every order" needs, in addition, that the solved
+   functions satisfy every emitted equation identically -- the identity check, which stays per instance. *)
+Theorem C20_genf_selection_beyond_compared_terms_refuted :
+  exists check root classes (W : nat -> Z -> Z) bs b,
+  genf_select check root classes W bs = Some b /\ family b root (check + 1) <> W root (check + 1).
+Proof. exists 6, O, [O], ne_W, [ne_b], ne_b. exact genf_selection_not_enough. Qed.
+
+(* Selection + identity check = every order.  Of the premises of C20_closed_form_criterion the selection
+   discharges ONE: the selected family vanishes below the declared minimum sizes (when they lie within the
+   compared terms and the factors of products are classes of the specification).  Left per instance: the
+   selected functions satisfy every emitted equation at every order and are 0 at negative sizes; left as
+   hypotheses on the counts: every rule genuine, W = true counts = the specification's counts (C01). *)
+Theorem C20_genf_selected_closed_form : forall (uspec : nat -> option urule) (keys : list fkey),
+  (forall k, In k keys -> exists r, uspec (parent k) = Some r /\ kids k = r_kids Z (to_srule r)) ->
+  (forall c r, uspec c = Some r -> urule_wf c r) ->
+  forall check root classes (W : nat -> Z -> Z) bs b,
+  genf_select check root classes W bs = Some b ->
+  (forall c r, uspec c = Some r -> genuine_u W c r) ->
+  (forall c m, m < 0 -> W c m = 0) ->
+  (forall c kids, uspec c = Some (UProduct kids) -> forall k m, In k kids -> m < snd k -> W (fst k) m = 0) ->
+  (forall c kids, uspec c = Some (UProduct kids) -> forall k, In k kids -> In (fst k) classes /\ snd k <= check + 1) ->
+  (forall c m, m < 0 -> family b c m = 0) ->
+  (forall c r, uspec c = Some r -> satisfies (family b) c r) ->
+  forall c, pumps keys c -> forall n, 0 <= n -> family b c n = W c n.
+Proof. intros. eapply genf_selected_closed_form; eauto. Qed.
+
+(* ------------------------------------------------------------ 2d. OPEN: the literal equation of a reverse rule *)
+(* What fix FIXHASH_EQ leaves of the unmapped-child-parameter defect (open finding
+   reverse-equation-unmapped-child-parameter): Complement.get_equation / Quotient.get_equation write their own
+   equation whenever every DICTIONARY is empty -- also when a child carries a statistic nobody is mapped to;
+   the reverse of a genuine union rule with well-formed (empty) dictionaries whose equation is not satisfied.
+   (C20_complement_equation_satisfied / C20_quotient_equation_satisfied ask the classes to have no parameters.) *)
+Theorem C20_reverse_equation_unmapped_refuted :
+  exists pars T V p kids idx N,
+  class_wf pars T p /\ Forall (kid_wfd pars T (pars p)) kids /\ union_genuine pars T p kids /\
+  (idx < length kids)%nat /\
+  ~ satisfied pars T (fun _ => []) V N (RRevUnion (mkorule p (map fst kids) (map snd kids)) idx).
+Proof.
+  exists rv_pars, rv_T, [0; 2], 0, [(1, [])], O, 2.
+  split; [apply rv_class_wf; auto|]. split; [exact rv_kids_wfd|]. split; [exact rv_genuine|].
+  split; [simpl; lia|]. exact (proj2 reverse_unmapped_refuted).
+Qed.
+
+(* PROPOSED repair (findings/c20_reverse_equation_unmapped_child_parameter.diff; rule_equation_guarded): the
+   reverse constructors refuse as soon as a function carries a parameter.  Then the reverse of EVERY genuine
+   union / product rule with well-formed dictionaries has a satisfied equation. *)
+Definition satisfied_guarded pars T O V N (r : rule) : Prop :=
+  match rule_equation_guarded pars r with
+  | Ok lhs rhs => holds (SN T N) O V N lhs rhs
+  | _ => False
+  end.
+Theorem C20_reverse_union_guarded_satisfied : forall pars T O V p kids idx N,
+  class_wf pars T p -> Forall (kid_wfd pars T (pars p)) kids -> union_genuine pars T p kids ->
+  (idx < length kids)%nat ->
+  satisfied_guarded pars T O V N (RRevUnion (mkorule p (map fst kids) (map snd kids)) idx).
+Proof. intros. apply reverse_union_guarded_holds; auto. Qed.
+Theorem C20_reverse_product_guarded_satisfied : forall pars T O V p kids idx N,
+  class_wf pars T p -> Forall (kid_wfd pars T (pars p)) kids -> product_genuine pars T V p kids N ->
+  (idx < length kids)%nat ->
+  satisfied_guarded pars T O V N (RRevProduct (mkorule p (map fst kids) (map snd kids)) idx).
+Proof. intros. apply reverse_product_guarded_holds; auto. Qed.
+
+(* ------------------------------------------------------------ 3. HISTORY: the code before the fixes *)
+(* Before fix FIXHASH_EQ (rule_equation_old, satisfied_before_fix).
+   DisjointUnion.get_equation left a child parameter that no parent parameter is mapped to as a free
+   variable of the child's function, while get_terms sums it out: a genuine union rule (and the
+   EquivalencePathRule over it, whose constructor has fixed_values = {e: 0}) whose emitted equation was not
+   satisfied.  Replayed on the real code by findings/c20_union_unmapped_child_parameter.py. *)
 Theorem C20_union_unmapped_refuted :
   exists pars T V p c ep N,
-  class_wf pars T p /\ class_wf pars T c /\ NoDup (map fst ep) /\ incl (map fst ep) (pars p) /\
-  incl (map snd ep) (pars c) /\ union_genuine pars T p [(c, ep)] /\
-  ~ satisfied pars T (fun _ => []) V N (RUnion (mkorule p [c] [ep])) /\
-  ~ satisfied pars T (fun _ => []) V N (RPath p [(false, ep)] c).
+  class_wf pars T p /\ Forall (kid_wfd pars T (pars p)) [(c, ep)] /\ union_genuine pars T p [(c, ep)] /\
+  ~ satisfied_before_fix pars T (fun _ => []) V N (RUnion (mkorule p [c] [ep])) /\
+  ~ satisfied_before_fix pars T (fun _ => []) V N (RPath p [(false, ep)] c) /\
+  (* the repaired method on the same rule *)
+  satisfied pars T (fun _ => []) V N (RUnion (mkorule p [c] [ep])).
 Proof.
   exists um_pars, um_T, um_V, 0, 1, [(1, 1)], 2.
   destruct union_unmapped_refuted as [A [B [C [D [E [F [G H]]]]]]].
-  split; [exact A|]. split; [exact B|]. split; [exact C|]. split; [exact D|]. split; [exact E|].
-  split; [exact F|]. split; [exact G|]. unfold satisfied. rewrite H. exact G.
+  assert (Forall (kid_wfd um_pars um_T (um_pars 0)) [(1, [(1, 1)])]) as Wk.
+  { constructor; [|constructor]. split; [exact B|]. split; [exact C|]. split; [exact D|exact E]. }
+  split; [exact A|]. split; [exact Wk|]. split; [exact F|]. split; [exact G|]. split.
+  - unfold satisfied_before_fix. rewrite H. exact G.
+  - exact (C20_union_equation_satisfied um_pars um_T (fun _ => []) um_V 0 [(1, [(1, 1)])] 2 A Wk F).
 Qed.
 
-(* CartesianProduct.get_equation inverts the dictionary ({child: parent ...}): with two
-   parent parameters mapped to one child parameter only the last one survives, and the
-   emitted equation is NOT satisfied by a genuine rule (get_terms handles the case). *)
+(* CartesianProduct.get_equation inverted the dictionary ({child: parent ...}): with two parent parameters
+   mapped to one child parameter only the last one survived, and the emitted equation was NOT satisfied by a
+   genuine rule.  Replayed by findings/c20_product_parameter_collision.py. *)
 Theorem C20_product_collision_refuted :
   exists pars T V p kids N,
-  class_wf pars T p /\ Forall (kid_wf pars T (pars p)) kids /\ product_genuine pars T V p kids N /\
-  ~ satisfied pars T (fun _ => []) V N (RProduct (mkorule p (map fst kids) (map snd kids))).
+  class_wf pars T p /\ Forall (kid_wfd pars T (pars p)) kids /\ product_genuine pars T V p kids N /\
+  ~ satisfied_before_fix pars T (fun _ => []) V N (RProduct (mkorule p (map fst kids) (map snd kids))) /\
+  satisfied pars T (fun _ => []) V N (RProduct (mkorule p (map fst kids) (map snd kids))).
 Proof.
   exists cx_pars, cx_T, cx_V, 0, cx_kids, 1.
   destruct product_collision_refuted as [A [B [C D]]].
-  split; [exact A|]. split; [exact B|]. split; [exact C|]. exact D.
+  pose proof (Forall_kid_wf_wfd cx_pars cx_T (cx_pars 0) cx_kids B) as B'.
+  split; [exact A|]. split; [exact B'|]. split; [exact C|]. split; [exact D|].
+  exact (C20_product_equation_satisfied cx_pars cx_T (fun _ => []) cx_V 0 cx_kids 1 A B' C).
 Qed.
+
+(* Where the old methods were right: every child parameter mapped to or 0 on every object of the child
+   (kid_wf0), and for products additionally no two parent parameters on one child parameter (pkid_wf0);
+   the path form with fixed_values = {k: 0} under the same condition. *)
+Theorem C20_union_equation_before_fix_satisfied : forall pars T O V p kids N,
+  class_wf pars T p -> Forall (kid_wf0 pars T (pars p)) kids -> union_genuine pars T p kids ->
+  satisfied_before_fix pars T O V N (RUnion (mkorule p (map fst kids) (map snd kids))).
+Proof. intros. apply union_equation_old_holds0; auto. Qed.
+
+Theorem C20_product_equation_before_fix_satisfied : forall pars T O V p kids N,
+  class_wf pars T p -> Forall (pkid_wf0 pars T (pars p)) kids -> product_genuine pars T V p kids N ->
+  satisfied_before_fix pars T O V N (RProduct (mkorule p (map fst kids) (map snd kids))).
+Proof. intros. apply product_equation_old_holds0; auto. Qed.
+
+Theorem C20_path_equation_before_fix_satisfied : forall pars T O V p steps c ep N,
+  path_eps (pars p) steps = Some ep ->
+  class_wf pars T p -> kid_wf0 pars T (pars p) (c, ep) -> union_genuine pars T p [(c, ep)] ->
+  satisfied_before_fix pars T O V N (RPath p steps c).
+Proof. intros. eapply path_equation_old_holds0; eauto. Qed.
+
+(* ... and there the fix changed nothing: when every child parameter is the image of a parent parameter
+   (and, for products, the dictionaries are injective) both methods emit the SAME equation *)
+Theorem C20_before_fix_same_equations : forall pars lhs kids,
+  Forall (covered pars) kids ->
+  union_equation_old lhs (map (cfun pars) (map fst kids)) (map snd kids) =
+    union_equation lhs (map (cfun pars) (map fst kids)) (map snd kids) /\
+  (Forall (fun k => NoDup (map snd (snd k))) kids ->
+   product_equation_old lhs (map (cfun pars) (map fst kids)) (map snd kids) =
+     product_equation lhs (map (cfun pars) (map fst kids)) (map snd kids)).
+Proof.
+  intros pars lhs kids H. split; [apply union_equation_old_same; auto|].
+  intros H2. apply product_equation_old_same. rewrite Forall_forall in *. intros k Hk. split; auto.
+Qed.
+
+(* Before fix FIXHASH_GENF (genf_select_old): only the root's series was compared.  root = atom^7 x T: the
+   branch with T(0) = 1 has the root series x^7, which agrees with the counts 0,..,0 on the 7 compared
+   terms; listed first it was returned (coefficient of x^7: 1, there are 0 objects); the repaired selection
+   rejects it and returns the right branch.  Replayed by findings/c20_genf_wrong_branch.py. *)
+Theorem C20_genf_selection_before_fix_refuted :
+  exists check root classes (W : nat -> Z -> Z) bs wrong right,
+  genf_select_old check root W bs = Some wrong /\ family wrong root (check + 1) <> W root (check + 1) /\
+  genf_select check root classes W bs = Some right /\
+  forall n, 0 <= n -> family right root n = W root n.
+Proof.
+  exists 6, O, [O; 1%nat], hs_W, [hs_wrong; hs_right], hs_wrong, hs_right.
+  destruct genf_selection_old_refuted as [A [B C]].
+  split; [exact A|]. split; [exact B|]. split; [exact C|]. intros n _. reflexivity.
+Qed.
+
+(* the names under which the theorems about unmapped statistics that are 0 on every object were first stated
+   (for the code before the fix they needed that condition; the repaired code does not), kept for the
+   documents that refer to them *)
+Definition C20_union_equation_zero_statistic_satisfied := C20_union_equation_before_fix_satisfied.
+Definition C20_product_equation_zero_statistic_satisfied := C20_product_equation_before_fix_satisfied.
+Definition C20_path_equation_fixed_values_satisfied := C20_path_equation_before_fix_satisfied.
 
 (* ------------------------------------------------------------ non-vacuity *)
 (* words a^n tracked twice (k = j = number of a's) = the same words tracked once:
@@ -317,7 +446,7 @@ Proof.
   assert (union_genuine ex_pars ex_T 0 ex_kids) as G.
   { intros n Hn e. unfold cnt. simpl. unfold aget. simpl. lia. }
   split; [reflexivity|]. split; [exact W0|]. split; [exact Wk|]. split; [exact G|].
-  intros N. apply C20_union_equation_satisfied; auto.
+  intros N. apply C20_union_equation_satisfied; auto. apply Forall_kid_wf_wfd; exact Wk.
 Qed.
 
 (* NAME-PERMUTING dictionaries are covered: kid_wf / pkid_wf do not ask the child's names to differ
@@ -358,7 +487,7 @@ Proof.
   { intros n Hn e. unfold cnt. simpl. unfold aget. simpl. lia. }
   split; [reflexivity|]. split; [apply W; auto|]. split; [exact Wk|]. split; [exact G|].
   split.
-  - intros N. apply C20_union_equation_satisfied; auto.
+  - intros N. apply C20_union_equation_satisfied; auto. apply Forall_kid_wf_wfd; exact Wk.
   - intros [p [q [Hp [Hq H]]]]. vm_compute in Hp, Hq.
     injection Hp as <-. injection Hq as <-.
     specialize (H (fun u => if u =? 1 then 0 else if u <=? 2 then 1 else 0)).
@@ -420,6 +549,7 @@ Proof.
   split; [reflexivity|]. split; [apply W; auto|]. split; [exact Wk|]. split; [exact G|].
   split.
   - apply C20_product_equation_satisfied; auto.
+    eapply Forall_impl; [|exact Wk]. intros k [Hk _]. apply kid_wf_wfd. exact Hk.
   - intros [p [q [Hp [Hq H]]]]. vm_compute in Hp, Hq.
     injection Hp as <-. injection Hq as <-.
     specialize (H (fun u => if u =? 0 then 2 else if u =? 2 then 1 else if u =? 3 then 1 else 0)).
@@ -482,10 +612,10 @@ Lemma l_class_wf l : class_wf nopars lT l.
 Proof.
   split; [constructor|]. split; [intros []|]. intros n t [<-|[]]. reflexivity.
 Qed.
-Lemma l_kid_wf c : kid_wf nopars lT [] (c, []).
+Lemma l_kid_wf c : kid_wfd nopars lT [] (c, []).
 Proof.
   split; [apply l_class_wf|]. cbn [fst snd map]. split; [constructor|].
-  split; [intros x []|]. split; [intros x []|]. intros cv [].
+  split; intros x [].
 Qed.
 Lemma l_cnt c n e : cnt (lT c n) e = if leqb [] e then lw (Z.to_nat c) n else 0.
 Proof. unfold cnt, lT, T_of. simpl. destruct (leqb [] e); lia. Qed.
@@ -534,7 +664,7 @@ Example C20_product_equation_satisfied_plain :
   satisfied nopars lT noO [0] 3 (RProduct (mkorule 2 [3; 0] [[]; []])).
 Proof.
   exact (C20_product_equation_satisfied nopars lT noO [0] 2 [(3, []); (0, [])] 3 (l_class_wf 2)
-           (Forall_cons _ (conj (l_kid_wf 3) (NoDup_nil _)) (Forall_cons _ (conj (l_kid_wf 0) (NoDup_nil _)) (Forall_nil _)))
+           (Forall_cons _ (l_kid_wf 3) (Forall_cons _ (l_kid_wf 0) (Forall_nil _)))
            l_product_genuine).
 Qed.
 Lemma l_no_params p cs : no_params nopars p cs.
@@ -680,7 +810,7 @@ Example C20_union_equation_satisfied_nonvacuous : forall N,
 Proof.
   intros N.
   exact (C20_union_equation_satisfied u2_pars u2_T (fun _ => []) [0; 1] 0 u2_kids N
-           (u2_class_wf 0 (or_introl eq_refl)) u2_kids_wf u2_genuine).
+           (u2_class_wf 0 (or_introl eq_refl)) (Forall_kid_wf_wfd _ _ _ _ u2_kids_wf) u2_genuine).
 Qed.
 Example C20_union_equation_value :
   rule_equation u2_pars (RUnion (mkorule 0 [1; 2] [[(1, 3)]; [(1, 4)]])) =
@@ -698,7 +828,8 @@ Example C20_product_equation_satisfied_nonvacuous :
   satisfied sh_pars sh_T (fun _ => []) sh_V 2 (RProduct (mkorule 0 (map fst sh_kids) (map snd sh_kids))).
 Proof.
   destruct C20_ex_product_shifted_names as (_ & W & Wk & G & _).
-  exact (C20_product_equation_satisfied sh_pars sh_T (fun _ => []) sh_V 0 sh_kids 2 W Wk G).
+  refine (C20_product_equation_satisfied sh_pars sh_T (fun _ => []) sh_V 0 sh_kids 2 W _ G).
+  eapply Forall_impl; [|exact Wk]. intros k [Hk _]. apply kid_wf_wfd. exact Hk.
 Qed.
 
 (* covers C20_reverse_with_parameters_falls_back *)
@@ -725,7 +856,7 @@ Example C20_equivalence_equation_satisfied_nonvacuous : forall N,
 Proof.
   intros N. destruct C20_ex_union_merge as (_ & W0 & Wk & G & _).
   apply (C20_equivalence_equation_satisfied ex_pars ex_T (fun _ => []) [0; 1; 2]
-           (mkorule 0 [5; 1] [[]; [(1, 3); (2, 3)]]) 1%nat N W0 (Forall_inv Wk) G).
+           (mkorule 0 [5; 1] [[]; [(1, 3); (2, 3)]]) 1%nat N W0 (kid_wf_wfd _ _ _ _ (Forall_inv Wk)) G).
 Qed.
 
 (* covers C20_path_equation_satisfied: a path of a reverse (Complement) step and a forward step *)
@@ -736,7 +867,7 @@ Proof.
   intros N. destruct C20_ex_union_merge as (_ & W0 & Wk & G & _).
   apply (C20_path_equation_satisfied ex_pars ex_T (fun _ => []) [0; 1; 2] 0
            [(true, [(7, 1); (8, 2)]); (false, [(7, 3); (8, 3)])] 1 [(1, 3); (2, 3)] N
-           eq_refl W0 (Forall_inv Wk) G).
+           eq_refl W0 (kid_wf_wfd _ _ _ _ (Forall_inv Wk)) G).
 Qed.
 Example C20_path_equation_value :
   rule_equation ex_pars (RPath 0 [(true, [(7, 1); (8, 2)]); (false, [(7, 3); (8, 3)])] 1) =
@@ -799,26 +930,36 @@ Proof. intros [_ [_ [_ [_ H]]]]. specialize (H 9 (or_intror (or_introl eq_refl))
 Lemma z_genuine : union_genuine z_pars z_T 0 [(1, [(1, 1)])].
 Proof. intros n Hn e. unfold cnt. simpl. unfold aget. simpl. lia. Qed.
 
-(* covers C20_path_equation_fixed_values_satisfied: the path from class 0 BACKWARDS through the
-   union rule 1 -> (0) with extra_parameters {k: k} (a Complement step): composed dictionary
-   {k: k}, fixed_values = {z: 0}; emitted F_0(x,k) = 0 + F_1(x,k,z) with z free; kid_wf fails,
-   kid_wf0 holds *)
+(* the path from class 0 BACKWARDS through the union rule 1 -> (0) with extra_parameters {k: k} (a
+   Complement step): composed dictionary {k: k}, fixed_values = {z: 0}.  The repaired method emits
+   F_0(x,k) = 0 + F_1(x,k,1) (covered by C20_path_equation_satisfied: kid_wf's cover clause fails, kid_wfd
+   holds); before the fix it emitted F_0(x,k) = 0 + F_1(x,k,z) with z free, satisfied here only because z
+   is 0 on every object (kid_wf0: covers C20_path_equation_before_fix_satisfied) *)
 Example C20_path_equation_fixed_values_nonvacuous :
   rule_equation z_pars (RPath 0 [(true, [(1, 1)])] 1) =
+    Ok (Fun 0 [Var 0; Var 1]) (Add (Const 0) (Fun 1 [Var 0; Var 1; Const 1])) /\
+  rule_equation_old z_pars (RPath 0 [(true, [(1, 1)])] 1) =
     Ok (Fun 0 [Var 0; Var 1]) (Add (Const 0) (Fun 1 [Var 0; Var 1; Var 9])) /\
   ~ kid_wf z_pars z_T (z_pars 0) (1, [(1, 1)]) /\
-  forall N, satisfied z_pars z_T (fun _ => []) [0; 1; 9] N (RPath 0 [(true, [(1, 1)])] 1).
+  (forall N, satisfied z_pars z_T (fun _ => []) [0; 1; 9] N (RPath 0 [(true, [(1, 1)])] 1)) /\
+  (forall N, satisfied_before_fix z_pars z_T (fun _ => []) [0; 1; 9] N (RPath 0 [(true, [(1, 1)])] 1)).
 Proof.
-  split; [reflexivity|]. split; [exact z_not_kid_wf|]. intros N.
-  exact (C20_path_equation_fixed_values_satisfied z_pars z_T (fun _ => []) [0; 1; 9] 0
-           [(true, [(1, 1)])] 1 [(1, 1)] N eq_refl (z_class_wf 0 (or_introl eq_refl)) z_kid_wf0 z_genuine).
+  split; [reflexivity|]. split; [reflexivity|]. split; [exact z_not_kid_wf|]. split; intros N.
+  - exact (C20_path_equation_satisfied z_pars z_T (fun _ => []) [0; 1; 9] 0
+             [(true, [(1, 1)])] 1 [(1, 1)] N eq_refl (z_class_wf 0 (or_introl eq_refl))
+             (kid_wf0_wfd _ _ _ _ z_kid_wf0) z_genuine).
+  - exact (C20_path_equation_before_fix_satisfied z_pars z_T (fun _ => []) [0; 1; 9] 0
+             [(true, [(1, 1)])] 1 [(1, 1)] N eq_refl (z_class_wf 0 (or_introl eq_refl)) z_kid_wf0 z_genuine).
 Qed.
-Example C20_union_equation_zero_statistic_nonvacuous : forall N,
-  satisfied z_pars z_T (fun _ => []) [0; 1; 9] N (RUnion (mkorule 0 [1] [[(1, 1)]])).
+Example C20_union_equation_unmapped_nonvacuous : forall N,
+  satisfied z_pars z_T (fun _ => []) [0; 1; 9] N (RUnion (mkorule 0 [1] [[(1, 1)]])) /\
+  satisfied_before_fix z_pars z_T (fun _ => []) [0; 1; 9] N (RUnion (mkorule 0 [1] [[(1, 1)]])).
 Proof.
-  intros N.
-  exact (C20_union_equation_zero_statistic_satisfied z_pars z_T (fun _ => []) [0; 1; 9] 0 [(1, [(1, 1)])] N
-           (z_class_wf 0 (or_introl eq_refl)) (Forall_cons _ z_kid_wf0 (Forall_nil _)) z_genuine).
+  intros N. split.
+  - exact (C20_union_equation_satisfied z_pars z_T (fun _ => []) [0; 1; 9] 0 [(1, [(1, 1)])] N
+             (z_class_wf 0 (or_introl eq_refl)) (Forall_cons _ (kid_wf0_wfd _ _ _ _ z_kid_wf0) (Forall_nil _)) z_genuine).
+  - exact (C20_union_equation_before_fix_satisfied z_pars z_T (fun _ => []) [0; 1; 9] 0 [(1, [(1, 1)])] N
+             (z_class_wf 0 (or_introl eq_refl)) (Forall_cons _ z_kid_wf0 (Forall_nil _)) z_genuine).
 Qed.
 
 (* covers C20_product_equation_zero_statistic_satisfied: the word "a" (class 0, tracking k) = the word "a"
@@ -848,14 +989,16 @@ Proof.
   - destruct Hl as [-> | [-> | ->]]; simpl; intuition discriminate.
   - intros n t. apply zp_tab.
 Qed.
-Example C20_product_equation_zero_statistic_nonvacuous :
-  rule_equation z_pars (RProduct (mkorule 0 (map fst zp_kids) (map snd zp_kids))) =
+Lemma zp_before : 
+  rule_equation_old z_pars (RProduct (mkorule 0 (map fst zp_kids) (map snd zp_kids))) =
     Ok (Fun 0 [Var 0; Var 1]) (Mul (Mul (Const 1) (Fun 1 [Var 0; Var 1; Var 9])) (Fun 4 [Var 0])) /\
-  satisfied z_pars zp_T (fun _ => []) [0; 1; 9] 2 (RProduct (mkorule 0 (map fst zp_kids) (map snd zp_kids))).
+  satisfied_before_fix z_pars zp_T (fun _ => []) [0; 1; 9] 2 (RProduct (mkorule 0 (map fst zp_kids) (map snd zp_kids))) /\
+  Forall (pkid_wf0 z_pars zp_T (z_pars 0)) zp_kids.
 Proof.
-  split; [reflexivity|].
-  apply C20_product_equation_zero_statistic_satisfied.
-  - apply zp_class_wf; auto.
+  assert (Forall (pkid_wf0 z_pars zp_T (z_pars 0)) zp_kids) as Wk; [|split; [reflexivity|split; [|exact Wk]]].
+  2:{ apply C20_product_equation_before_fix_satisfied; [apply zp_class_wf; auto|exact Wk|].
+      intros m _. vm_compute. reflexivity. }
+  idtac.
   - constructor; [|constructor; [|constructor]]; unfold pkid_wf0, kid_wf0; cbn [fst snd map].
     + split; [split; [|split; [|split; [|split]]]|].
       * apply zp_class_wf; auto.
@@ -873,6 +1016,19 @@ Proof.
       * intros x [].
       * intros cv [].
       * constructor.
+Qed.
+(* covers C20_product_equation_satisfied with an unmapped child parameter, and
+   C20_product_equation_before_fix_satisfied *)
+Example C20_product_equation_unmapped_nonvacuous :
+  rule_equation z_pars (RProduct (mkorule 0 (map fst zp_kids) (map snd zp_kids))) =
+    Ok (Fun 0 [Var 0; Var 1]) (Mul (Mul (Const 1) (Fun 1 [Var 0; Var 1; Const 1])) (Fun 4 [Var 0])) /\
+  satisfied z_pars zp_T (fun _ => []) [0; 1; 9] 2 (RProduct (mkorule 0 (map fst zp_kids) (map snd zp_kids))) /\
+  satisfied_before_fix z_pars zp_T (fun _ => []) [0; 1; 9] 2 (RProduct (mkorule 0 (map fst zp_kids) (map snd zp_kids))).
+Proof.
+  destruct zp_before as [_ [B Wk]]. split; [reflexivity|]. split; [|exact B].
+  apply C20_product_equation_satisfied.
+  - apply zp_class_wf; auto.
+  - eapply Forall_impl; [|exact Wk]. intros k [Hk _]. apply kid_wf0_wfd. exact Hk.
   - intros m _. vm_compute. reflexivity.
 Qed.
 
@@ -909,7 +1065,7 @@ Qed.
    EquivalenceRule of the reversed rule and a path holding such a wrapped step have no equation at all *)
 Example C20_single_factor_product_equivalences :
   rule_equation z_pars (REquivUnion (mkorule 0 [1] [[(1, 1)]]) 0) =
-    Ok (Fun 0 [Var 0; Var 1]) (Add (Const 0) (Fun 1 [Var 0; Var 1; Var 9])) /\
+    Ok (Fun 0 [Var 0; Var 1]) (Add (Const 0) (Fun 1 [Var 0; Var 1; Const 1])) /\
   rule_equation nopars (REquivRevProduct 2 0) = NotImpl /\
   spec_equation nopars (RPathNoCtor 0 2) = Ok (Fun 0 [Var 0]) (Fun (-1) [Var 0]) /\
   ~ rule_plain nopars (REquivRevProduct 2 0).
@@ -977,6 +1133,42 @@ Proof.
   apply (C20_closed_form_criterion ex_spec ex_keys K W lw G l_genuine_u l_neg l_low G1 G2 G3 0%nat P 5). lia.
 Qed.
 
+(* covers C20_genf_selection and C20_genf_selected_closed_form on ex_spec (L = 1 + x*L): the solver's list holds
+   a wrong solution (class 0 given the series of the atom) and the right one; the repaired selection skips
+   the first, returns the second, and with the identity check (l_solution) the conclusion holds at every order *)
+Definition sel_wrong : branch := fun c => Some (lw (match c with 0%nat => 3%nat | _ => c end)).
+Definition sel_right : branch := fun c => Some (lw c).
+Example C20_genf_selection_nonvacuous :
+  genf_select 6 0%nat [0%nat; 1%nat; 2%nat; 3%nat] lw [sel_wrong; sel_right] = Some sel_right /\
+  (forall c, In c [0%nat; 1%nat; 2%nat; 3%nat] -> forall n, 0 <= n <= 6 -> family sel_right c n = lw c n) /\
+  forall n, 0 <= n -> family sel_right 0%nat n = lw 0%nat n.
+Proof.
+  assert (genf_select 6 0%nat [0%nat; 1%nat; 2%nat; 3%nat] lw [sel_wrong; sel_right] = Some sel_right) as S
+    by reflexivity.
+  split; [exact S|]. split.
+  - intros c Hc n Hn.
+    destruct (C20_genf_selection 6 0%nat [0%nat; 1%nat; 2%nat; 3%nat] lw [sel_wrong; sel_right] sel_right S)
+      as [_ [A _]].
+    destruct (A c (or_intror Hc)) as [g [E Hg]]. unfold family. rewrite E. auto.
+  - destruct C20_ex_unique_hypotheses as (K & W & P).
+    destruct l_solution as [Sneg [Ssat Slow]].
+    apply (C20_genf_selected_closed_form ex_spec ex_keys K W 6 0%nat [0%nat; 1%nat; 2%nat; 3%nat] lw
+             [sel_wrong; sel_right] sel_right S l_genuine_u l_neg l_low); auto.
+    intros [|[|[|[|c]]]] kids E; try discriminate. injection E as <-.
+    intros k [<-|[<-|[]]]; simpl; split; auto; lia.
+Qed.
+
+(* covers C20_reverse_union_guarded_satisfied on the witness of C20_reverse_equation_unmapped_refuted *)
+Example C20_reverse_union_guarded_nonvacuous :
+  rule_equation_guarded rv_pars (RRevUnion (mkorule 0 [1] [[]]) 0) =
+    Ok (Fun 0 [Var 0]) (Add (Const 0) (Fun 1 [Var 0; Const 1])) /\
+  forall N, satisfied_guarded rv_pars rv_T (fun _ => []) [0; 2] N (RRevUnion (mkorule 0 [1] [[]]) 0).
+Proof.
+  split; [reflexivity|]. intros N.
+  exact (C20_reverse_union_guarded_satisfied rv_pars rv_T (fun _ => []) [0; 2] 0 [(1, [])] O N
+           (rv_class_wf 0 (or_introl eq_refl)) rv_kids_wfd rv_genuine ltac:(simpl; lia)).
+Qed.
+
 Print Assumptions C20_union_equation_satisfied.
 Print Assumptions C20_product_equation_satisfied.
 Print Assumptions C20_reverse_with_parameters_falls_back.
@@ -992,9 +1184,6 @@ Print Assumptions C20_unique_needs_minimum_sizes_refuted.
 Print Assumptions C20_product_collision_refuted.
 Print Assumptions C20_ex_union_swapped_names.
 Print Assumptions C20_ex_product_shifted_names.
-Print Assumptions C20_union_equation_zero_statistic_satisfied.
-Print Assumptions C20_product_equation_zero_statistic_satisfied.
-Print Assumptions C20_path_equation_fixed_values_satisfied.
 Print Assumptions C20_equivalence_reverse_equation_satisfied.
 Print Assumptions C20_equivalence_reverse_with_parameters_has_no_equation.
 Print Assumptions C20_without_parameters_every_rule_has_equation.
@@ -1002,3 +1191,14 @@ Print Assumptions C20_without_parameters_equivalences_are_unions.
 Print Assumptions C20_true_counts_solution.
 Print Assumptions C20_closed_form_criterion.
 Print Assumptions C20_union_unmapped_refuted.
+Print Assumptions C20_genf_selection.
+Print Assumptions C20_genf_selection_beyond_compared_terms_refuted.
+Print Assumptions C20_genf_selected_closed_form.
+Print Assumptions C20_union_equation_before_fix_satisfied.
+Print Assumptions C20_product_equation_before_fix_satisfied.
+Print Assumptions C20_path_equation_before_fix_satisfied.
+Print Assumptions C20_before_fix_same_equations.
+Print Assumptions C20_genf_selection_before_fix_refuted.
+Print Assumptions C20_reverse_equation_unmapped_refuted.
+Print Assumptions C20_reverse_union_guarded_satisfied.
+Print Assumptions C20_reverse_product_guarded_satisfied.
